@@ -3,6 +3,7 @@ C05 — line-protocol driver of the model (core only). One op per line, one answ
 Every action line is one step of `OG.C05.step`; the answer is `ok`, or `bad-op` when the model does
 not allow the step in its state (the harness only emits steps it saw the real code take).
 
+  @1 <op …>                                  the same ops for a second replica group living on the same nodes
   new                                        forget everything (next scenario)
   boot <n> <sz,sz,…>                         n nodes after the bootstrap (conf-change entries of the given sizes)
   propose <p> <k> <v> <sh> <size>            WriteToRaft on node p (size = len(Entry.Data) of the proposal)
@@ -152,14 +153,20 @@ def stepLine (s : Option State) (line : String) : Option State × String :=
     | _, _ => bad
   | _ => bad
 
-partial def loop (h : IO.FS.Stream) (out : IO.FS.Stream) (s : Option State) : IO Unit := do
+/-- two replica groups can share the nodes of a run: lines of the second one start with `@1 ` -/
+partial def loop (h : IO.FS.Stream) (out : IO.FS.Stream) (s0 s1 : Option State) : IO Unit := do
   let line ← h.getLine
   if line.isEmpty then return ()
-  let (s', ans) := stepLine s line
-  out.putStrLn ans
-  loop h out s'
+  if line.startsWith "@1 " then
+    let (s', ans) := stepLine s1 (line.drop 3).toString
+    out.putStrLn ans
+    loop h out s0 s'
+  else
+    let (s', ans) := stepLine s0 line
+    out.putStrLn ans
+    loop h out s' s1
 
 def main : IO Unit := do
-  loop (← IO.getStdin) (← IO.getStdout) none
+  loop (← IO.getStdin) (← IO.getStdout) none none
 
 end OG.C05
